@@ -28,6 +28,9 @@ VECTORS = [
     {"use_push_pop_functions": True},
     {"inline_functions": False, "use_push_pop_functions": True, "remove_labels": True},
     {"remove_labels": True, "compact": True},
+    # tail-call rewrite: judged only where open finding F-D11 (C06) cannot interfere, see check_case
+    {"tail_call_optimization": True},
+    {"tail_call_optimization": True, "compact": True},
 ]
 
 
@@ -47,6 +50,20 @@ def check_case(case, stats=None, K=oracle.K_QUICK, known=None):
     v = res.get("_verif")
     if not v:
         raise repo.HarnessError("PYTRAPIC_VERIF hook output missing")
+    if opts.get("tail_call_optimization") and len({r.get("region") or "" for r in v["instructions"]}) > 1:
+        from .c02 import tco_safe
+
+        if not tco_safe(srcs[""]):
+            # a function with an early return or a second call came out of line: with the tail-call bit that is the
+            # shape of open finding F-D11; the program is judged without the bit (when everything is inlined there is
+            # no return address to lose, and the bit stays on)
+            opts["tail_call_optimization"] = False
+            if stats is not None:
+                stats.excluded["tail-call-bit-forced-off(F-D11)"] += 1
+            res = oracle.compile_case(srcs, opts)
+            if "error" in res:
+                return
+            v = res["_verif"]
     recmap = diag.align(res["code"], v["instructions"])
     regions = {r.get("region") or "" for r in v["instructions"]}
     pending = None
